@@ -413,6 +413,7 @@ fn build(u: &mut Choices) -> Case {
         }
     };
     let mut lets = String::from("let q = items[*].s\n");
+    let mut doc_offsets: Option<(V, V)> = None;
     let (call, exp): (String, Exp) = match f {
         "substring" => {
             let offs: Vec<V> = vec![V::Int(0), V::Int(1), V::Int(2), V::Int(3), V::Int(5), V::Int(-1), V::Int(65536), V::Int(65538), V::Int(65535), V::Int(i64::MAX), V::Float(1.0), V::Int(11)];
@@ -423,8 +424,26 @@ fn build(u: &mut Choices) -> Case {
                 members = vec![Some(V::Str("xy".repeat(40000)))];
                 arg = "items[*].s".into();
             }
-            let e = expected("substring", &members, Some(&a), Some(&b));
-            (format!("substring({}, {}, {})", arg, v_text(&a), v_text(&b)), e)
+            if u.chance(1, 3) {
+                // offsets taken from the document (the only way to hand over a negative or a
+                // fractional float: the grammar has no negative float literal)
+                let offs: Vec<V> = vec![V::Int(0), V::Int(1), V::Int(2), V::Int(3), V::Int(-1), V::Int(-2), V::Float(0.0), V::Float(1.0), V::Float(2.0), V::Float(3.0), V::Float(-1.0), V::Float(-2.0), V::Float(-0.0), V::Int(i64::MIN), V::Float(-1e300), V::Float(1e300)];
+                let a = offs[u.below(offs.len())].clone();
+                let b = offs[u.below(offs.len())].clone();
+                doc_offsets = Some((a.clone(), b.clone()));
+                let e = match (&a, &b) {
+                    // beyond the whole-float range that `expected` asserts: certainly out of range
+                    (V::Float(x), _) | (_, V::Float(x)) if x.abs() >= 1e15 => match expected("substring", &members, Some(&V::Int(0)), Some(&V::Int(0))) {
+                        Exp::Values(_) => Exp::Values(vec![]),
+                        o => o,
+                    },
+                    _ => expected("substring", &members, Some(&a), Some(&b)),
+                };
+                (format!("substring({}, off.a, off.b)", arg), e)
+            } else {
+                let e = expected("substring", &members, Some(&a), Some(&b));
+                (format!("substring({}, {}, {})", arg, v_text(&a), v_text(&b)), e)
+            }
         }
         "join" => {
             let d = *u.pick(&[",", "", "-", ", "]);
@@ -507,7 +526,10 @@ fn build(u: &mut Choices) -> Case {
             (format!("{}({})", name, arg), e)
         }
     };
-    let doc = doc_of(&members);
+    let mut doc = doc_of(&members);
+    if let (Some((a, b)), V::Map(m)) = (doc_offsets, &mut doc) {
+        m.push(("off".into(), V::Map(vec![("a".into(), a), ("b".into(), b)])));
+    }
     let mut rules = format!("{}let r = {}\n{}", lets, call, DUMP);
     // a result bound to a variable behaves like any other value in later clauses
     if let Exp::Values(vs) = &exp {
